@@ -278,6 +278,9 @@ func (g *Gen) pool(t *Type, env map[int]*Type, depth int) []*Val {
 			}
 			out = append(out, tree([]int{0, 1, 2}), tree([]int{2, 1, 0}), tree([]int{1}), tree([]int{1, 0}))
 		}
+		for _, x := range t.ExtraVals {
+			out = append(out, g.cl(x))
+		}
 		return out
 	case KRef:
 		return g.pool(env[t.ID].Elem, env, depth)
